@@ -2,7 +2,7 @@ package yqlib
 
 // C16 — path, key and parent describe where a node actually is.
 
-var c16SeqProducers = []string{".a", ".a | sort", ".a | sort_by(.)", ".a | reverse", ".a | unique", ".a | .[1:]", ".a | map(.)", ".a | filter(. != 8)", "[.a[]]", ".a + [9]", ".a | (.[0] = 7)", ".a | flatten"}
+var c16SeqProducers = []string{".a", ".a | sort", ".a | sort_by(.)", ".a | reverse", ".a | unique", ".a | .[1:]", ".a | map(.)", ".a | filter(. != 2)", "[.a[]]", ".a + [9]", ".a | (.[0] = 7)", ".a | flatten"}
 var c16SeqProducerNames = []string{"fresh", "sort", "sort_by", "reverse", "unique", "slice", "map", "filter", "collect", "concat", "assign-back", "flatten"}
 
 // c16Follow walks a path (as produced by the `path` operator: a !!seq of !!str / !!int scalars) from root.
